@@ -13,22 +13,6 @@ variable {C F T : Type}
 /-- every seekable set cursor ranges over a bucket of strictly increasing string keys -/
 def SeekOK (w : World C F) : Prop := ∀ c n, w.seekable c n = true → SortedStrs (w.elems c n)
 
-/-- No sub-query of the filter ranges over a cursor that yields an element whose key is nil (a null
-    link inside the dotted set symbol of a `from … where …`), in any row context.
-    `uniqueIndexScanner` takes such a row, when it matches, for the end of the scan (see
-    `nil_row_violates`). -/
-def subRowsNonNil (sg : Sigma T) (w : World C F) : T → U F → Prop
-  | t, .setFnSub _ n q _ _ =>
-    (∀ c, ∀ c' ∈ w.subRows c n, w.nilRow c' = false) ∧
-      ∀ t', sg.setTypes t n = some t' → subRowsNonNil sg w t' q
-  | t, .cmp _ l _ => subRowsNonNil sg w t l
-  | t, .inArr l _ => subRowsNonNil sg w t l
-  | t, .between l _ _ => subRowsNonNil sg w t l
-  | t, .notE e => subRowsNonNil sg w t e
-  | t, .unot e => subRowsNonNil sg w t e
-  | t, .logic _ l r => subRowsNonNil sg w t l ∧ subRowsNonNil sg w t r
-  | _, _ => True
-
 /-- the filter contains no sub-query -/
 def noSubQuery : U F → Bool
   | .setFnSub .. => false
@@ -39,24 +23,6 @@ def noSubQuery : U F → Bool
   | .unot e => noSubQuery e
   | .logic _ l r => noSubQuery l && noSubQuery r
   | _ => true
-
-theorem subRowsNonNil_of_noSubQuery (sg : Sigma T) (w : World C F) :
-    ∀ (f : U F) (t : T), noSubQuery f = true → subRowsNonNil sg w t f := by
-  intro f
-  induction f with
-  | setFnSub fn n q sk li ih => intro t h; simp [noSubQuery] at h
-  | cmp op l r ih => intro t h; exact ih t (by simpa [noSubQuery] using h)
-  | inArr l arr ih => intro t h; exact ih t (by simpa [noSubQuery] using h)
-  | between l lo hi ih => intro t h; exact ih t (by simpa [noSubQuery] using h)
-  | notE e ih => intro t h; exact ih t (by simpa [noSubQuery] using h)
-  | unot e ih => intro t h; exact ih t (by simpa [noSubQuery] using h)
-  | logic o l r ihl ihr =>
-    intro t h
-    simp only [noSubQuery, Bool.and_eq_true] at h
-    exact ⟨ihl t h.1, ihr t h.2⟩
-  | sym n => intro t _; trivial
-  | setFn fn n => intro t _; trivial
-  | boolC b => intro t _; trivial
 
 def LhsDen.vals : LhsDen F → List (SVal F)
   | .one _ sv => [sv]
@@ -298,14 +264,14 @@ def LhsConcl (sg : Sigma T) (w : World C F) (fo : FloatOps F) (t : T) (f : U F) 
 
 theorem refine_main (sg : Sigma T) (w : World C F) (fo : FloatOps F) (hw : SeekOK w) :
     ∀ (f : U F) (t : T),
-      (wellTyped sg fo t f = true → subRowsNonNil sg w t f → Concl sg w fo t f) ∧
-      (∀ τ nl, lhsType sg fo t f = some (τ, nl) → subRowsNonNil sg w t f → LhsConcl sg w fo t f τ nl) := by
+      (wellTyped sg fo t f = true → Concl sg w fo t f) ∧
+      (∀ τ nl, lhsType sg fo t f = some (τ, nl) → LhsConcl sg w fo t f τ nl) := by
   intro f
   induction f with
   | sym n =>
     intro t
     constructor
-    · intro hwt hnn
+    · intro hwt
       simp only [wellTyped] at hwt
       cases hs : sg.sym t n with
       | none => simp [hs] at hwt
@@ -314,7 +280,7 @@ theorem refine_main (sg : Sigma T) (w : World C F) (fo : FloatOps F) (hw : SeekO
         cases τ <;> cases b <;> simp [hs] at hwt
         · exact ⟨.boolSym n, by simp [transform, typedSym, hs], rfl, fun c => by simp [evalBool, sat]⟩
         · exact ⟨.anySym n, by simp [transform, typedSym, hs], rfl, fun c => by simp [evalBool, sat]⟩
-    · intro τ nl hl hnn
+    · intro τ nl hl
       simp only [lhsType] at hl
       cases hs : sg.sym t n with
       | none => simp [hs] at hl
@@ -328,7 +294,7 @@ theorem refine_main (sg : Sigma T) (w : World C F) (fo : FloatOps F) (hw : SeekO
   | setFn fn n =>
     intro t
     constructor
-    · intro hwt hnn
+    · intro hwt
       cases fn with
       | isEmpty =>
         simp only [wellTyped] at hwt
@@ -340,7 +306,7 @@ theorem refine_main (sg : Sigma T) (w : World C F) (fo : FloatOps F) (hw : SeekO
           refine ⟨.isEmpty n, ?_, rfl, fun c => by simp [evalBool, sat]⟩
           simp [transform, typedSym_eq sg t n τ true hs hwt]
       | _ => simp [wellTyped] at hwt
-    · intro τ nl hl hnn
+    · intro τ nl hl
       cases hs : sg.sym t n with
       | none => cases fn <;> simp [lhsType, hs] at hl
       | some x =>
@@ -365,20 +331,20 @@ theorem refine_main (sg : Sigma T) (w : World C F) (fo : FloatOps F) (hw : SeekO
   | setFnSub fn n q sk li ih =>
     intro t
     have key : ∀ τ' t', sg.sym t n = some (τ', true) → τ' ≠ .other → sg.setTypes t n = some t' →
-        wellTyped sg fo t' q = true → subRowsNonNil sg w t (.setFnSub fn n q sk li) →
+        wellTyped sg fo t' q = true →
         ∃ q', asBool (transform sg fo t' q) = .ok q' ∧
           ∀ c, scanCount (fun c' => evalBool w fo c' (w.val c') q') w.nilRow (pagingOffset sk) (pagingLimit li)
               (w.subRows c n) 0 0 =
-            (paged sk li ((w.subRows c n).filter fun c' => sat sg w fo t' c' q)).length := by
-      intro τ' t' _ _ hst hq hnn
-      simp only [subRowsNonNil] at hnn
-      obtain ⟨q', hq', hqb, hqe⟩ := (ih t').1 hq (hnn.2 t' hst)
+            (paged sk li ((liveRows w c n).filter fun c' => sat sg w fo t' c' q)).length := by
+      intro τ' t' _ _ hst hq
+      obtain ⟨q', hq', hqb, hqe⟩ := (ih t').1 hq
       refine ⟨q', by simp [asBool, hq', hqb], fun c => ?_⟩
-      rw [scanCount_paged _ _ _ _ _ (hnn.1 c)]
+      rw [scanCount_paged]
       have : (fun c' => evalBool w fo c' (w.val c') q') = (fun c' => sat sg w fo t' c' q) := funext hqe
       rw [this]
+      rfl
     constructor
-    · intro hwt hnn
+    · intro hwt
       cases fn with
       | isEmpty =>
         simp only [wellTyped] at hwt
@@ -390,13 +356,13 @@ theorem refine_main (sg : Sigma T) (w : World C F) (fo : FloatOps F) (hw : SeekO
           | none => cases b <;> simp [hs, hst] at hwt
           | some t' =>
             cases b <;> simp [hs, hst] at hwt
-            obtain ⟨q', hq', hcnt⟩ := key τ' t' hs hwt.1 hst hwt.2 hnn
+            obtain ⟨q', hq', hcnt⟩ := key τ' t' hs hwt.1 hst hwt.2
             refine ⟨.isEmptyQ n q' sk li, ?_, rfl, fun c => ?_⟩
             · simp [transform, typedSym_eq sg t n τ' true hs hwt.1, hst, hq']
             · simp only [evalBool, sat, hst, hcnt c]
-              cases paged sk li (List.filter (fun c' => sat sg w fo t' c' q) (w.subRows c n)) <;> simp
+              cases paged sk li (List.filter (fun c' => sat sg w fo t' c' q) (liveRows w c n)) <;> simp
       | _ => simp [wellTyped] at hwt
-    · intro τ nl hl hnn
+    · intro τ nl hl
       cases fn with
       | count =>
         simp only [lhsType] at hl
@@ -409,82 +375,82 @@ theorem refine_main (sg : Sigma T) (w : World C F) (fo : FloatOps F) (hw : SeekO
           | some t' =>
             cases b <;> simp [hs, hst] at hl
             obtain ⟨⟨hτ, hq⟩, rfl, rfl⟩ := hl
-            obtain ⟨q', hq', hcnt⟩ := key τ' t' hs hτ hst hq hnn
+            obtain ⟨q', hq', hcnt⟩ := key τ' t' hs hτ hst hq
             refine ⟨.countQ n q' sk li, _, ?_,
               Operand.cnt (.countQ n q' sk li) (Or.inr ⟨n, q', sk, li, rfl⟩)
-                (fun c => (paged sk li ((w.subRows c n).filter fun c' => sat sg w fo t' c' q)).length)
+                (fun c => (paged sk li ((liveRows w c n).filter fun c' => sat sg w fo t' c' q)).length)
                 (fun c lk => by simp [evalInt, hcnt c]), ?_⟩
             · simp [transform, typedSym_eq sg t n τ' true hs hτ, hst, hq']
             · intro c; simp [lhsDen, hst]
       | _ => simp [lhsType] at hl
   | boolC b =>
     intro t
-    exact ⟨fun _ _ => ⟨.boolC b, rfl, rfl, fun c => by simp [evalBool, sat]⟩, fun τ nl hl _ => by simp [lhsType] at hl⟩
+    exact ⟨fun _ => ⟨.boolC b, rfl, rfl, fun c => by simp [evalBool, sat]⟩, fun τ nl hl => by simp [lhsType] at hl⟩
   | cmp op l r ih =>
     intro t
     constructor
-    · intro hwt hnn
+    · intro hwt
       simp only [wellTyped] at hwt
       cases hl : lhsType sg fo t l with
       | none => simp [hl] at hwt
       | some x =>
         obtain ⟨τ, nl⟩ := x
         simp only [hl] at hwt
-        obtain ⟨s, d, hs, hop, hd⟩ := (ih t).2 τ nl hl (by simpa [subRowsNonNil] using hnn)
+        obtain ⟨s, d, hs, hop, hd⟩ := (ih t).2 τ nl hl
         obtain ⟨p, hp, hpb, hpe⟩ := cmp_bridge w fo hw hop op r hwt
         exact ⟨p, by simp [transform, hs, hp], hpb, fun c => by rw [hpe c, hd c]; simp [sat]⟩
     · intro τ nl hl; simp [lhsType] at hl
   | inArr l arr ih =>
     intro t
     constructor
-    · intro hwt hnn
+    · intro hwt
       simp only [wellTyped] at hwt
       cases hl : lhsType sg fo t l with
       | none => simp [hl] at hwt
       | some x =>
         obtain ⟨τ, nl⟩ := x
         simp only [hl] at hwt
-        obtain ⟨s, d, hs, hop, hd⟩ := (ih t).2 τ nl hl (by simpa [subRowsNonNil] using hnn)
+        obtain ⟨s, d, hs, hop, hd⟩ := (ih t).2 τ nl hl
         obtain ⟨p, hp, hpb, hpe⟩ := in_bridge w fo hop arr hwt
         exact ⟨p, by simp [transform, hs, hp], hpb, fun c => by rw [hpe c, hd c]; simp [sat]⟩
     · intro τ nl hl; simp [lhsType] at hl
   | between l lo hi ih =>
     intro t
     constructor
-    · intro hwt hnn
+    · intro hwt
       simp only [wellTyped] at hwt
       cases hl : lhsType sg fo t l with
       | none => simp [hl] at hwt
       | some x =>
         obtain ⟨τ, nl⟩ := x
         simp only [hl] at hwt
-        obtain ⟨s, d, hs, hop, hd⟩ := (ih t).2 τ nl hl (by simpa [subRowsNonNil] using hnn)
+        obtain ⟨s, d, hs, hop, hd⟩ := (ih t).2 τ nl hl
         obtain ⟨p, hp, hpb, hpe⟩ := between_bridge w fo hop lo hi hwt
         exact ⟨p, by simp [transform, hs, hp], hpb, fun c => by rw [hpe c, hd c]; simp [sat]⟩
     · intro τ nl hl; simp [lhsType] at hl
   | notE e ih =>
     intro t
     constructor
-    · intro hwt hnn
+    · intro hwt
       simp only [wellTyped, Bool.and_eq_true] at hwt
-      obtain ⟨p, hp, hpb, hpe⟩ := (ih t).1 hwt.2 (by simpa [subRowsNonNil] using hnn)
+      obtain ⟨p, hp, hpb, hpe⟩ := (ih t).1 hwt.2
       exact ⟨.not p, by simp [transform, asBool, hp, hpb], rfl, fun c => by simp [evalBool, sat, hpe c]⟩
     · intro τ nl hl; simp [lhsType] at hl
   | unot e ih =>
     intro t
     constructor
-    · intro hwt hnn
+    · intro hwt
       simp only [wellTyped] at hwt
-      obtain ⟨p, hp, hpb, hpe⟩ := (ih t).1 hwt (by simpa [subRowsNonNil] using hnn)
+      obtain ⟨p, hp, hpb, hpe⟩ := (ih t).1 hwt
       exact ⟨.not p, by simp [transform, asBool, hp, hpb], rfl, fun c => by simp [evalBool, sat, hpe c]⟩
     · intro τ nl hl; simp [lhsType] at hl
   | logic isOr l r ihl ihr =>
     intro t
     constructor
-    · intro hwt hnn
+    · intro hwt
       simp only [wellTyped, Bool.and_eq_true] at hwt
-      obtain ⟨p, hp, hpb, hpe⟩ := (ihl t).1 hwt.1 (by simp only [subRowsNonNil] at hnn; exact hnn.1)
-      obtain ⟨q, hq, hqb, hqe⟩ := (ihr t).1 hwt.2 (by simp only [subRowsNonNil] at hnn; exact hnn.2)
+      obtain ⟨p, hp, hpb, hpe⟩ := (ihl t).1 hwt.1
+      obtain ⟨q, hq, hqb, hqe⟩ := (ihr t).1 hwt.2
       refine ⟨if isOr then .or p q else .and p q, by simp [transform, hp, hq, hpb, hqb], by cases isOr <;> rfl, fun c => ?_⟩
       cases isOr <;> simp [evalBool, sat, hpe c, hqe c] <;> cases sat sg w fo t c l <;> simp
     · intro τ nl hl; simp [lhsType] at hl
